@@ -56,8 +56,8 @@ typedef struct { TokenKind kind; iora_sv name; iora_sv text; iora_attrvec attrib
  * Every pushed string is a copy of an input slice and the input is immutable, so an entry IS (content-wise) that slice.
  * Levels other than GL answer nondeterministically (sound for "for every level ..." clauses). */
 size_t GL;
-typedef struct { size_t n; iora_sv wit; /* content of entry GL, meaningful iff n > GL */ } iora_strstack;
-#define iora_strstack_DEFAULT ((iora_strstack){0, {0, 0}})
+typedef struct { size_t n; size_t wit_off; size_t wit_n; /* entry GL == input[wit_off, wit_off+wit_n), meaningful iff n > GL */ } iora_strstack;
+#define iora_strstack_DEFAULT ((iora_strstack){0, 0, 0})
 
 typedef struct { iora_sv _input; Options _opt; size_t _cur; size_t _line; size_t _col; size_t _depth; Token _token; bool _hasError;
                  Error _error; bool _emittedEof; size_t _producedTokens; iora_strstack _elementStack; } Parser;
@@ -75,11 +75,22 @@ typedef struct { iora_sv _input; Options _opt; size_t _cur; size_t _line; size_t
  * GSC is DEFINED by the precondition (the input is immutable, so the definition stays true); clauses and loop invariants then
  * speak about GSC instead of re-reading input[GS], which keeps the number of symbolic array reads small (measured: 123 s -> 6 s). */
 size_t GS; char GSC;
-/* GOC = the input byte under the cursor on entry (defined by the precondition when the cursor is not at the end) */
+/* GOC = the input byte under the cursor on entry (defined by the precondition when the cursor is not at the end).
+ * XML_GHOST_INLINE (unit xml_tags, where the cursor-layer contracts REPLACE calls): per-call definitional ghosts are substituted by
+ * their definitions, which is the same contract (the enforcing proof covers every ghost value satisfying the definition, and
+ * exactly one value does). */
+#ifdef XML_GHOST_INLINE
+#define GOC XML_AT(self, __CPROVER_old(self->_cur))
+#define GOC_PRE XML_AT(self, self->_cur)
+#define XML_GOC_DEF(s) 1
+#else
 char GOC;
+#define GOC_PRE GOC
+#define XML_GOC_DEF(s) ((s)->_cur < (s)->_input.n ==> GOC == (s)->_input.p[(s)->_cur])
+#endif
 #define XML_PRE(s) (IORA_TRUE && __CPROVER_is_fresh(s, sizeof(*(s))) && XML_SMALL((s)->_input.n, XML_IN_BITS) \
                     && __CPROVER_is_fresh((s)->_input.p, (s)->_input.n) && XML_CUR_INV(s) && (GS < (s)->_input.n ==> GSC == (s)->_input.p[GS]) \
-                    && ((s)->_cur < (s)->_input.n ==> GOC == (s)->_input.p[(s)->_cur]))
+                    && XML_GOC_DEF(s))
 #define XML_AT(s, i) ((s)->_input.p[i])
 /* slice containment, exact form: view v is the input range [off, off+len) */
 #define XML_SLICE_IS(s, v, off, len) (__CPROVER_same_object((v).p, (s)->_input.p) && (v).p == (s)->_input.p + (off) && (v).n == (len) \
